@@ -16,8 +16,8 @@ VARIABLES tid, l
 tvars == <<vars, tid, l>>
 
 Tr == Traces[tid]
-Ev == Tr[l]
-IsEvent(e) == l <= Len(Tr) /\ Ev.ev = e /\ l' = l + 1 /\ UNCHANGED tid
+Rec == Tr[l]
+IsEvent(e) == l <= Len(Tr) /\ Rec.ev = e /\ l' = l + 1 /\ UNCHANGED tid
 ToSet(seq) == {seq[i] : i \in DOMAIN seq}
 PairSet(seq) == {<<seq[i][1], seq[i][2]>> : i \in DOMAIN seq}
 
@@ -32,16 +32,33 @@ DropStep(b) == [p \in {<<x[2], x[3]>> : x \in DOMAIN b} |-> b[<<k, p[1], p[2]>>]
 
 TraceInit == Init /\ tid \in DOMAIN Traces /\ l = 1
 
-TBeginStep == IsEvent("BeginStep") /\ BeginStep /\ k' = Ev.k
-TCompletePropagate == IsEvent("CompletePropagate") /\ CompletePropagate(Ev.a) /\ truthAt'[Ev.a] = Ev.at
+TBeginStep == IsEvent("BeginStep") /\ BeginStep /\ Rec.k = k + 1
+\* one handler call; the handler logged by the implementation must be the one the spec names
+TDeliver == /\ IsEvent("Deliver") /\ Rec.id \in EventIds /\ Deliver(Rec.id)
+            /\ delivered'[Rec.id][Len(delivered'[Rec.id])][2] = Rec.handler
+TEndStepEvents == IsEvent("EndStepEvents") /\ EndStepEvents
+\* planned propagation events were also handed to the estimate of their target (estq)
+TTicToc == /\ IsEvent("TicToc") /\ TicToc /\ k' = Rec.k
+           /\ {id \in handled : Ev(id).planned /\ Ev(id).kind \in PropKinds} = ToSet(Rec.estq)
+           /\ (~WithEstimation \/ Len(Rec.estq) = Cardinality(ToSet(Rec.estq)))
+Changed(f, g) == {id \in EventIds : f[id] # g[id]}
+TCompletePropagate == /\ IsEvent("CompletePropagate") /\ CompletePropagate(Rec.a) /\ truthAt'[Rec.a] = Rec.at
+                      /\ Changed(applied, applied') = ToSet(Rec.applied)
+                      /\ Len(Rec.applied) = Cardinality(ToSet(Rec.applied))
 TJoinPropagate == IsEvent("JoinPropagate") /\ JoinPropagate
-TCompletePredict == IsEvent("CompletePredict") /\ CompletePredict(Ev.t) /\ estAt'[Ev.t][1] = Ev.at
+TCompletePredict == /\ IsEvent("CompletePredict") /\ CompletePredict(Rec.t) /\ estAt'[Rec.t][1] = Rec.at
+                    /\ Changed(appliedEst, appliedEst') = ToSet(Rec.applied)
+                    /\ Len(Rec.applied) = Cardinality(ToSet(Rec.applied))
 TJoinPredict == IsEvent("JoinPredict") /\ JoinPredict
-TEngineReset == IsEvent("EngineReset") /\ EngineReset(Ev.e)
-TCompleteReward == IsEvent("CompleteReward") /\ CompleteReward(Ev.t, ToSet(Ev.row))
+TEndBiasEvents == IsEvent("EndBiasEvents") /\ EndBiasEvents
+\* the sensors' time-bias queues as the engine sees them: [[s, [ids]], ...]
+BiasMatch(seq) == \A i \in DOMAIN seq : biasQ[seq[i][1]] = ToSet(seq[i][2])
+TEngineReset == IsEvent("EngineReset") /\ EngineReset(Rec.e) /\ BiasMatch(Rec.bias)
+TRewardJoined == IsEvent("RewardJoined") /\ RewardJoined
+TCompleteReward == IsEvent("CompleteReward") /\ CompleteReward(Rec.t, ToSet(Rec.row))
 TDecide == /\ IsEvent("Decide") /\ Decide
-           /\ decision' = PairSet(Ev.decision)
-           /\ Vis = PairSet(Ev.vis)               \* the engine's visibility matrix is the merged rows
+           /\ decision' = PairSet(Rec.decision)
+           /\ Vis = PairSet(Rec.vis)               \* the engine's visibility matrix is the merged rows
 
 \* sensor_changes logged as [[s, stepLastTasked, targetPointedAt], ...]
 ChangesMatch(ch, seq, kk) ==
@@ -53,38 +70,41 @@ ChangesMatch(ch, seq, kk) ==
 
 TCompleteExec ==
   /\ IsEvent("CompleteExec")
-  /\ CompleteExec(Ev.t, ToSet(Ev.slew), ToSet(Ev.hit), PairSet(Ev.ser))
-  /\ {<<o[1], o[2]>> : o \in {x \in obsStep' : x[3] \in EngTargets[eng]}} = PairSet(Ev.obs)
-  /\ StepBag(savedMiss', k) = Bag3(Ev.miss)
-  /\ missHeld' = Bag3(Ev.held)
-  /\ ChangesMatch(changes', Ev.changes, k)
+  /\ CompleteExec(Rec.t, ToSet(Rec.slew), ToSet(Rec.hit), PairSet(Rec.ser))
+  /\ {<<o[1], o[2]>> : o \in {x \in obsStep' : x[3] \in engT[eng]}} = PairSet(Rec.obs)
+  /\ StepBag(savedMiss', k) = Bag3(Rec.miss)
+  /\ missHeld' = Bag3(Rec.held)
+  /\ ChangesMatch(changes', Rec.changes, k)
 
 PointingMatch(pt, seq, kk) ==
    \A i \in DOMAIN seq : LET s == seq[i][1] IN
         /\ pt[s][1] = seq[i][2]
         /\ (pt[s][1] = kk => pt[s][2] = seq[i][3])
-TApplyChanges == IsEvent("ApplyChanges") /\ ApplyChanges /\ PointingMatch(pointing', Ev.pointing, k)
+TApplyChanges == IsEvent("ApplyChanges") /\ ApplyChanges /\ PointingMatch(pointing', Rec.pointing, k)
 TNextEngine == IsEvent("NextEngine") /\ NextEngine
-TCompleteUpdate == /\ IsEvent("CompleteUpdate") /\ CompleteUpdate(Ev.t)
-                   /\ {<<o[1], o[2]>> : o \in estObs[Ev.t]} = PairSet(Ev.obs)
-                   /\ Cardinality(estObs[Ev.t]) = Len(Ev.obs)
+TCompleteUpdate == /\ IsEvent("CompleteUpdate") /\ CompleteUpdate(Rec.t)
+                   /\ {<<o[1], o[2]>> : o \in estObs[Rec.t]} = PairSet(Rec.obs)
+                   /\ Cardinality(estObs[Rec.t]) = Len(Rec.obs)
 TJoinUpdate == IsEvent("JoinUpdate") /\ JoinUpdate
 
-TSaveOutput ==
-  /\ IsEvent("SaveOutput") /\ SaveOutput
-  /\ db'.epochs = ToSet(Ev.rows.epochs) /\ Len(Ev.rows.epochs) = Cardinality(db'.epochs)
-  /\ db'.truth = Bag2(Ev.rows.truth)
-  /\ db'.est = Bag2(Ev.rows.est)
-  /\ db'.obs = Bag3(Ev.rows.obs)
-  /\ db'.miss = Bag3(Ev.rows.miss)
-  /\ db'.tasks = Bag3(Ev.rows.tasks)
+RowsMatch(d, rows) ==
+  /\ d.epochs = ToSet(rows.epochs) /\ Len(rows.epochs) = Cardinality(d.epochs)
+  /\ d.truth = Bag2(rows.truth)
+  /\ d.est = Bag2(rows.est)
+  /\ d.obs = Bag3(rows.obs)
+  /\ d.miss = Bag3(rows.miss)
+  /\ d.tasks = Bag3(rows.tasks)
+TSaveOutput == IsEvent("SaveOutput") /\ SaveOutput /\ RowsMatch(db', Rec.rows)
+\* a commit that raised: the audit of all tables afterwards must equal the state before
+TSaveFail == IsEvent("SaveFail") /\ SaveFail /\ RowsMatch(db', Rec.rows)
 TSkipOutput == IsEvent("SkipOutput") /\ SkipOutput
 \* end of stepForward: the numeric results of the step (observations, estimates, matrices,
 \* sensor state) equal those of the reference schedule of the same scenario (logged boolean)
-TEndStep == IsEvent("EndStep") /\ Ev.same /\ UNCHANGED vars
+TEndStep == IsEvent("EndStep") /\ Rec.same /\ UNCHANGED vars
 
 TraceNext ==
-  \/ TBeginStep \/ TCompletePropagate \/ TJoinPropagate \/ TCompletePredict \/ TJoinPredict
+  \/ TBeginStep \/ TDeliver \/ TEndStepEvents \/ TTicToc \/ TEndBiasEvents \/ TRewardJoined \/ TSaveFail
+  \/ TCompletePropagate \/ TJoinPropagate \/ TCompletePredict \/ TJoinPredict
   \/ TEngineReset \/ TCompleteReward \/ TDecide \/ TCompleteExec \/ TApplyChanges \/ TNextEngine
   \/ TCompleteUpdate \/ TJoinUpdate \/ TSaveOutput \/ TSkipOutput \/ TEndStep
 
